@@ -366,8 +366,10 @@ def build(spec: Dict, with_block: bool = True) -> Tuple[Dict, Dict]:
     if "ransom" in a_sw:
         a_apps.append({"type": "ransomware-script", "options": {"server_ip": ip_b, **({"server_password": pw} if pw else {})}})
     if "dos" in a_sw:
-        a_apps.append({"type": "dos-bot", "options": {"target_ip_address": ip_b, "payload": "SPOOF DATA",
-                                                      "port_scan_p_of_success": 1.0, "max_sessions": 8, "repeat": True}})
+        # no target in the scenario: a configured dos-bot attacks on every tick by itself, and the idle run must be idle;
+        # the `configure dos` operation gives it its target
+        a_apps.append({"type": "dos-bot", "options": {"payload": "SPOOF DATA", "port_scan_p_of_success": 1.0,
+                                                      "max_sessions": 8, "repeat": True}})
     if "c2s" in a_sw:
         a_apps.append({"type": "c2-server"})
     if "c2b" in a_sw and "c2s" not in a_sw:
